@@ -383,6 +383,7 @@ def matrix_cases(draw, tier):
         route["interleaved"] = draw(st.booleans())
         route["cuts"] = cut_points(draw, ncols, 4)
         route["gap_every"] = draw(st.sampled_from([0, 0, 3, 10]))
+        route["sep"] = draw(st.sampled_from([" ", "  ", "\t", "    "]))
     if kind == "parse_fasta":
         route["width"] = draw(st.sampled_from([1, 2, 5, 60, 70, 1000]))
         route["blank_lines"] = draw(st.booleans())
@@ -450,9 +451,7 @@ def make_phylip(dtype, rows, route):
     ncols = len(rows[0][1])
     out = ["%d %d" % (len(rows), ncols)]
     blocks = blocks_of(ncols, route["cuts"])
-    lab = (lambda l: l.ljust(10)) if route["strict"] else (lambda l: l + "  ")
-    if dtype == "continuous" and route["strict"]:
-        lab = lambda l: l.ljust(10)
+    lab = (lambda l: l.ljust(10)) if route["strict"] else (lambda l: l + route.get("sep", "  "))
     if route["interleaved"]:
         for bi, (a, b) in enumerate(blocks):
             if bi:
